@@ -190,6 +190,12 @@ func (ws *WALStorage) Append(entries []myraft.Entry) error {
 	if len(infos) != 1 {
 		return fmt.Errorf("raftstore: expected single entry record, got %d", len(infos))
 	}
+	// The record must be durable before the manifest pointer names it and before the
+	// caller acts on the persisted state (raft sends messages right after): flush the
+	// WAL's write buffer and fsync the segment.
+	if err := ws.wal.Sync(); err != nil {
+		return err
+	}
 	if err := ws.mem.Append(entries); err != nil {
 		return err
 	}
@@ -226,6 +232,12 @@ func (ws *WALStorage) ApplySnapshot(snap myraft.Snapshot) error {
 	}
 	if len(infos) != 1 {
 		return fmt.Errorf("raftstore: expected single snapshot record, got %d", len(infos))
+	}
+	// The record must be durable before the manifest pointer names it and before the
+	// caller acts on the persisted state (raft sends messages right after): flush the
+	// WAL's write buffer and fsync the segment.
+	if err := ws.wal.Sync(); err != nil {
+		return err
 	}
 	if err := ws.mem.ApplySnapshot(snap); err != nil {
 		return err
@@ -297,6 +309,12 @@ func (ws *WALStorage) SetHardState(st myraft.HardState) error {
 	}
 	if len(infos) != 1 {
 		return fmt.Errorf("raftstore: expected single hard state record, got %d", len(infos))
+	}
+	// The record must be durable before the manifest pointer names it and before the
+	// caller acts on the persisted state (raft sends messages right after): flush the
+	// WAL's write buffer and fsync the segment.
+	if err := ws.wal.Sync(); err != nil {
+		return err
 	}
 	if err := ws.mem.SetHardState(st); err != nil {
 		return err
